@@ -5,6 +5,7 @@ import ToastyVerif.Gen.Pyramid
 import ToastyVerif.Gen.Study
 import ToastyVerif.Model.Pyramid
 import ToastyVerif.Model.Select
+import ToastyVerif.Gen.Parity
 
 namespace Driver
 
@@ -216,6 +217,26 @@ def handleScan (op : String) (a : List String) : String :=
   | "cli_key", [s] => cliKey s
   | _, _ => "bad-op"
 
+/-! ### parity (exact rationals `p/q`) -/
+
+def parseRat (s : String) : Option Rat :=
+  match s.splitOn "/" with
+  | [a] => a.toInt?.map (fun n => (n : Rat))
+  | [a, b] => match a.toInt?, b.toNat? with
+    | some n, some d => if d = 0 then none else some ((n : Rat) / (d : Rat))
+    | _, _ => none
+  | _ => none
+
+def showRat (r : Rat) : String := if r.den = 1 then toString r.num else s!"{r.num}/{r.den}"
+
+def handleParity (op : String) (a : List String) : String :=
+  match op, a.mapM parseRat with
+  | "sign", some [c1, c2, p11, p12, p21, p22] => toString (Gen.Parity.sign c1 c2 p11 p12 p21 p22)
+  | "flip", some [c1, c2, p11, p12, p21, p22, x1, x2, h] =>
+      let f := fun (g : Rat → Rat → Rat → Rat → Rat → Rat → Rat → Rat → Rat → Rat) => showRat (g c1 c2 p11 p12 p21 p22 x1 x2 h)
+      s!"{f Gen.Parity.flip_cd1_1} {f Gen.Parity.flip_cd1_2} {f Gen.Parity.flip_cd2_1} {f Gen.Parity.flip_cd2_2} {f Gen.Parity.flip_crpix1} {f Gen.Parity.flip_crpix2}"
+  | _, _ => "bad-op"
+
 def handle (toks : List String) : String :=
   match toks with
   | "gen" :: op :: args => match ints args with
@@ -226,6 +247,7 @@ def handle (toks : List String) : String :=
       | none => "bad-op"
   | "pyr" :: op :: args => handlePyr op args
   | "scan" :: op :: args => handleScan op args
+  | "parity" :: op :: args => handleParity op args
   | _ => "bad-op"
 
 end Driver
